@@ -55,70 +55,68 @@ Definition chains_loop_spec (sup : option (list N)) (l seen : list N) : res unit
      nodupb N.eqb l && forallb (fun c => negb (memN c seen)) l
   then Ok tt else Err.
 
-Lemma gen_validate_roots_chains_loop_spec : forall l sup seen,
-  gen_validate_roots_chains_loop sup l seen = chains_loop_spec (Some sup) l seen.
-Proof.
-  unfold chains_loop_spec.
-  induction l as [|c l IH]; intros sup seen; gen_step gen_validate_roots_chains_loop; [reflexivity|].
-  rewrite IH, not_seen_cons. cbn [forallb nodupb].
-  destruct (memN c sup), (memN c seen), (existsb (N.eqb c) l), (forallb (fun c0 => memN c0 sup) l),
-    (nodupb N.eqb l), (forallb (fun c0 => negb (memN c0 seen)) l); reflexivity.
-Qed.
-
-Lemma gen_validate_onramp_chains_loop_spec : forall l sup seen,
-  gen_validate_onramp_chains_loop sup l seen = chains_loop_spec (Some sup) l seen.
-Proof.
-  unfold chains_loop_spec.
-  induction l as [|c l IH]; intros sup seen; gen_step gen_validate_onramp_chains_loop; [reflexivity|].
-  rewrite IH, not_seen_cons. cbn [forallb nodupb].
-  destruct (memN c sup), (memN c seen), (existsb (N.eqb c) l), (forallb (fun c0 => memN c0 sup) l),
-    (nodupb N.eqb l), (forallb (fun c0 => negb (memN c0 seen)) l); reflexivity.
-Qed.
-
-Lemma gen_validate_offramp_chains_loop_spec : forall l seen,
-  gen_validate_offramp_chains_loop l seen = chains_loop_spec None l seen.
-Proof.
-  unfold chains_loop_spec.
-  induction l as [|c l IH]; intros seen; gen_step gen_validate_offramp_chains_loop; [reflexivity|].
-  rewrite IH, not_seen_cons. cbn [forallb nodupb].
-  destruct (memN c seen), (existsb (N.eqb c) l), (forallb (fun _ : N => true) l),
-    (nodupb N.eqb l), (forallb (fun c0 => negb (memN c0 seen)) l); reflexivity.
-Qed.
-
 Lemma not_seen_nil : forall l : list N, forallb (fun c => negb (memN c [])) l = true.
 Proof. induction l as [|c l IH]; [reflexivity|]. cbn [forallb]. rewrite IH. reflexivity. Qed.
 
 Lemma forallb_true : forall l : list N, forallb (fun _ => true) l = true.
 Proof. induction l as [|c l IH]; [reflexivity|]. cbn [forallb]. exact IH. Qed.
 
+(* The loop of a validator, found through its call marker: f l seen = chains_loop_spec sup l seen.  One step of the
+   generated loop is split on every test it makes (in whatever order and spelling); what remains is an equation
+   between boolean atoms. *)
+Ltac chains_loop_lemma f sup :=
+  assert (L : forall l seen, f l seen = chains_loop_spec sup l seen)
+    by (let l := fresh "l" in intro l; induction l as [|? ? IH]; intro; gen_loop_step f; [reflexivity|];
+        (* helpers the step calls (a visit-and-insert method, ...) are opened; the tests of the step are split while
+           the specification is still folded, so that the recursive call comes out of any destructuring let *)
+        gen_open; gen_bool_split; cbn [fst snd];
+        rewrite ?IH; unfold chains_loop_spec; rewrite ?not_seen_cons; cbn [forallb nodupb]; gen_bools).
+
 (* (a) generated = modelled, for every list of chains, observer and supported set *)
 Theorem gen_validate_roots_chains_eq : forall cs o sup,
   gen_validate_roots_chains cs o sup = if chains_ok sup cs then Ok tt else Err.
 Proof.
-  intros cs o sup. unfold gen_validate_roots_chains, chains_ok. cbv zeta.
-  rewrite gen_validate_roots_chains_loop_spec. unfold chains_loop_spec. rewrite not_seen_nil, andb_true_r.
-  destruct cs; [reflexivity|]. cbn [length]. destruct (Z.eqb_spec (Z.of_nat (S (length cs))) 0); [lia|reflexivity].
+  intros cs o sup. gen_open.
+  lazymatch goal with |- context [gen_loop2 ?f _ _] => chains_loop_lemma f (Some sup) end.
+  unfold gen_loop2. rewrite L. unfold chains_loop_spec, chains_ok. rewrite not_seen_nil, andb_true_r.
+  destruct cs; [reflexivity|]. cbn [length]. repeat gen_case; try reflexivity; lia.
 Qed.
 Print Assumptions gen_validate_roots_chains_eq.
 
 Theorem gen_validate_onramp_chains_eq : forall cs o sup,
   gen_validate_onramp_chains cs o sup = if chains_ok sup cs then Ok tt else Err.
 Proof.
-  intros cs o sup. unfold gen_validate_onramp_chains, chains_ok. cbv zeta.
-  rewrite gen_validate_onramp_chains_loop_spec. unfold chains_loop_spec. rewrite not_seen_nil, andb_true_r.
-  destruct cs; [reflexivity|]. cbn [length]. destruct (Z.eqb_spec (Z.of_nat (S (length cs))) 0); [lia|reflexivity].
+  intros cs o sup. gen_open.
+  lazymatch goal with |- context [gen_loop2 ?f _ _] => chains_loop_lemma f (Some sup) end.
+  unfold gen_loop2. rewrite L. unfold chains_loop_spec, chains_ok. rewrite not_seen_nil, andb_true_r.
+  destruct cs; [reflexivity|]. cbn [length]. repeat gen_case; try reflexivity; lia.
 Qed.
 Print Assumptions gen_validate_onramp_chains_eq.
 
-(* the off-ramp clause of validate_obs: nothing observed, or the observer writes the destination and no chain twice *)
+(* the off-ramp clause of validate_obs: nothing observed, or the observer writes the destination and no chain twice.
+   Two shapes are known: the duplicate scan inside the function (its loop returns the error), or in a helper that
+   returns (first repeated chain, found). *)
 Theorem gen_validate_offramp_chains_eq : forall cs o sd,
   gen_validate_offramp_chains cs o sd =
   if (match cs with [] => true | _ => sd && nodupb N.eqb cs end) then Ok tt else Err.
 Proof.
-  intros cs o sd. unfold gen_validate_offramp_chains. cbv zeta.
-  rewrite gen_validate_offramp_chains_loop_spec. unfold chains_loop_spec. rewrite not_seen_nil, forallb_true, andb_true_r.
-  destruct cs; [reflexivity|]. cbn [length]. destruct (Z.eqb_spec (Z.of_nat (S (length cs))) 0); [lia|].
-  destruct sd; reflexivity.
+  intros cs o sd. gen_open.
+  first
+  [ (* the loop returns res unit *)
+    lazymatch goal with |- context [gen_loop2 ?f _ _] => chains_loop_lemma f (@None (list N)) end;
+    unfold gen_loop2; rewrite L; unfold chains_loop_spec; rewrite not_seen_nil, forallb_true, andb_true_r
+  | (* the loop returns (chain, found) *)
+    lazymatch goal with |- context [gen_loop2 ?f _ _] =>
+      assert (L : forall l seen, snd (f l seen) = negb (nodupb N.eqb l && forallb (fun c => negb (memN c seen)) l))
+        by (induction l as [|c l IH]; intros seen; gen_loop_step f; [reflexivity|];
+            cbn [nodupb forallb]; gen_open; rewrite ?IH, ?not_seen_cons;
+            gen_bool_split; cbn [snd]; rewrite ?IH, ?not_seen_cons; cbn [snd]; gen_bools);
+      unfold gen_loop2;
+      let H := fresh "H" in pose proof (L cs (@nil N)) as H; rewrite not_seen_nil, andb_true_r in H;
+      destruct (f cs (@nil N)) as [dup found]; cbn [snd] in H; subst found
+    end ];
+  (destruct cs; [reflexivity|]); cbn [length];
+  destruct sd; cbn [negb andb]; repeat gen_case; try reflexivity; try lia; try congruence.
 Qed.
 Print Assumptions gen_validate_offramp_chains_eq.
 
